@@ -223,6 +223,30 @@ fn det_check(ops: &[Op]) -> Result<(), Fail> {
   Ok(())
 }
 
+/// the same operation sequence replayed `n` times, each on a fresh thread (fresh hash seeds): identical traces (ranks after every
+/// operation).  For shapes in which a hash-iteration order could decide a tie (several parentless nodes in one change set)
+fn det_repeat(ops: &[Op], n: usize) -> Result<(), Fail> {
+  let first = { let o = ops.to_vec(); std::thread::spawn(move || trace_last_instance(&o)).join().unwrap_or_else(|_| vec!["panic".to_string()]) };
+  for k in 1..n {
+    let o = ops.to_vec();
+    let t = std::thread::spawn(move || trace_last_instance(&o)).join().unwrap_or_else(|_| vec!["panic".to_string()]);
+    if t != first {
+      let i = t.iter().zip(first.iter()).position(|(a, b)| a != b).unwrap_or(t.len().min(first.len()));
+      return Err(Fail { prop: "C16", ob: "C16.bounded.same_operations_same_ranks_on_every_replay", what: format!("replay {} of the same operation sequence differs at operation #{}: `{}` vs `{}`", k, i, t.get(i).cloned().unwrap_or_default(), first.get(i).cloned().unwrap_or_default()) });
+    }
+  }
+  Ok(())
+}
+fn det_shapes() -> Vec<Vec<Op>> {
+  use Op::*;
+  vec![
+    // o=0 x=1 t1=2 t2=3 t3=4: three parentless requirers of x; x then depends on the older o: the backward set is {x, t1, t2, t3}
+    vec![AddNode, AddNode, AddNode, AddNode, AddNode, AddEdge(2, 1), AddEdge(3, 1), AddEdge(4, 1), AddEdge(1, 0)],
+    // forward set with several childless nodes: a=0 with children c1..c3 created later, then an older-ranked source b gets an edge to a
+    vec![AddNode, AddNode, AddNode, AddNode, AddNode, AddEdge(0, 2), AddEdge(0, 3), AddEdge(0, 4), AddEdge(1, 0), AddEdge(4, 1)],
+  ]
+}
+
 fn panic_text(e: &Box<dyn std::any::Any + Send>) -> String {
   e.downcast_ref::<String>().cloned().or_else(|| e.downcast_ref::<&str>().map(|s| s.to_string())).unwrap_or_else(|| "(no message)".to_string())
 }
@@ -320,6 +344,7 @@ fn main() {
     let ops = parse_ops(&args[2]);
     std::panic::set_hook(Box::new(|_| {}));
     if ops.contains(&Op::New) { if let Err(f) = det_check(&ops) { report(&ops, ops.len() - 1, &f); std::process::exit(1); } }
+    else if let Err(f) = det_repeat(&ops, 24) { report(&ops, ops.len() - 1, &f); std::process::exit(1); }
     let fs = run_all(&ops); if fs.is_empty() { println!("{{\"violation\":false,\"ops\":{}}}", ops_json(&ops)); } else { for (at, f) in &fs { report(&ops, *at, f); } std::process::exit(1); }
     return;
   }
@@ -327,6 +352,7 @@ fn main() {
   let (k, l, random, len, seed) = (get("--k", 3), get("--l", 4), get("--random", 0), get("--len", 12), get("--seed", 1));
   let mut found = 0usize; let mut runs = 0u64; let mut nontrivial = 0u64;
   let quiet = std::panic::take_hook(); std::panic::set_hook(Box::new(|_| {}));
+  for ops in det_shapes() { runs += 1; nontrivial += 1; if let Err(f) = det_repeat(&ops, 24) { report(&ops, ops.len() - 1, &f); found += 1; } }
   for ops in fixed_sequences() { runs += 1; nontrivial += 1; let fs = run_all(&ops); if !fs.is_empty() { for (at, f) in &fs { report(&ops, *at, f); } found += 1; } }
   // exhaustive: K add_node first, then every sequence of <= L edge/removal operations
   let alphabet = all_ops(k);
